@@ -193,10 +193,6 @@ mod verif_c14 {
         if DoubleOps::eq(&a, &b) {
             assert!(same(&stream(&a), &stream(&b)));
         }
-        // the length is part of the stream
-        if a.len() != b.len() {
-            assert!(!same(&stream(&a), &stream(&b)));
-        }
         kani::cover!(a.len() == 2 && DoubleOps::eq(&a, &b));
         std::mem::forget(a);
         std::mem::forget(b);
